@@ -347,6 +347,10 @@ def check(rep, F, tier, replay=None):
             continue  # clearing the field
         checked = any(any(k_ in (c.to or "") for k_ in ("min_ada_for_output", "MinOutputAdaCalculator", "calculate_ada")) for c in F.calls(fid_))
         if not checked:
+            # the computation may sit in a closure / helper of this function (wrapper-aware, two levels)
+            deep_ = mp.call_origin_deep(F, "min_ada_for_output")
+            checked = any(deep_("call:%s@0" % (c.to or "")) for c in F.calls(fid_) if (c.to or "") in F.fns)
+        if not checked:
             rep.violation("COLRET-gate", key_, "%s stores a collateral return output without any min-ADA computation: set_collateral_return(1 lovelace to a base address) is accepted and build_tx() returns a body whose collateral return is below the minimum (add_output rejects the same output)" % key_, {})
     rep.floor("functions storing TransactionBuilder.collateral_return", 3, n_cr)
     minada_addr_rule(rep, F)
@@ -417,6 +421,8 @@ def check(rep, F, tier, replay=None):
     recalc_all_rule(rep, F)
     from ruleutil import minada_whole_rule
     minada_whole_rule(rep, F)
+    import p_c19 as _c19
+    _c19.same_output_rule(rep, F)  # the collateral return that is priced is the one that is stored (shared with C19)
     return rep.finish(
         EXPLANATION,
         ["min_ada_for_output's numeric bound (fixed point over the coin width) is not decided statically", "collateral return gates are C19's rules"],
